@@ -1050,7 +1050,7 @@ fn explore(ctx: &Ctx) {
     let depth = std::env::var("VERIF_C35_DEPTH")
         .ok()
         .and_then(|d| d.parse().ok())
-        .unwrap_or(ctx.pick(7usize, 12usize));
+        .unwrap_or(ctx.pick(8usize, 12usize));
     let stats = bfs::bfs(&m, depth, ctx.pick(2_000_000, 20_000_000), ctx);
     ctx.set(
         "bfs",
